@@ -1,7 +1,6 @@
 //! C07 — `parser::check_parsed_token_preconditions`: every token sequence of length 0..=L over the
 //! seven token kinds {number, variable, `(`, `)`, operator that is binary+unary, binary-only,
-//! unary-only}.  Token *kinds* are enumerated concretely inside the harness (the function only
-//! looks at kinds), payloads are symbolic.  Contract from the property text and the documented
+//! unary-only}.  Token kinds and number payloads are symbolic.  Contract from the property text and the documented
 //! adjacency rules: the sequence is rejected **iff** it is empty, ends in an operator, has
 //! unbalanced parentheses (or closes before it opens), or contains a forbidden adjacent pair.
 use crate::src::Src;
@@ -50,10 +49,15 @@ fn expect_err(kinds: &[u8]) -> bool {
     }
     open != 0
 }
-fn check_seq<S: Src>(s: &mut S, kinds: &[u8]) {
-    let toks: Vec<ParsedToken<'static, i32>> = kinds.iter().map(|k| mk_tok(s, *k)).collect();
+fn check_seq<S: Src, const L: usize>(s: &mut S, fixed_first: Option<u8>) {
+    // exactly L tokens; token kinds are symbolic (except an optionally fixed first one)
+    let mut kinds = [0u8; L];
+    for (i, k) in kinds.iter_mut().enumerate() {
+        *k = match (i, fixed_first) { (0, Some(f)) => f, _ => s.choice(7) };
+    }
+    let toks: [ParsedToken<'static, i32>; L] = core::array::from_fn(|i| mk_tok(s, kinds[i]));
     let r = check_parsed_token_preconditions(&toks);
-    if expect_err(kinds) {
+    if expect_err(&kinds) {
         assert!(r.is_err(), "C07 malformed token sequence (empty / trailing operator / unbalanced parentheses / forbidden adjacency) is rejected");
     } else {
         assert!(r.is_ok(), "C07 a token sequence without any documented defect passes the precondition check");
@@ -61,24 +65,17 @@ fn check_seq<S: Src>(s: &mut S, kinds: &[u8]) {
     core::mem::forget((r, toks));
 }
 
-harness!(preconditions_len_0_1_2, unwind = 10, |s| {
-    check_seq(s, &[]);
-    for a in 0..7u8 {
-        check_seq(s, &[a]);
-        for b2 in 0..7u8 { check_seq(s, &[a, b2]); }
-    }
-});
-// length 3 and 4: the first token kind is fixed per harness so the work spreads over the cores
-fn len3<S: Src>(s: &mut S, a: u8) { for b2 in 0..7u8 { for c in 0..7u8 { check_seq(s, &[a, b2, c]); } } }
-fn len4<S: Src>(s: &mut S, a: u8, b2: u8) { for c in 0..7u8 { for d in 0..7u8 { check_seq(s, &[a, b2, c, d]); } } }
-harness!(preconditions_len_3_a0, unwind = 10, |s| { len3(s, 0) });
-harness!(preconditions_len_3_a1, unwind = 10, |s| { len3(s, 1) });
-harness!(preconditions_len_3_a2, unwind = 10, |s| { len3(s, 2) });
-harness!(preconditions_len_3_a3, unwind = 10, |s| { len3(s, 3) });
-harness!(preconditions_len_3_a4, unwind = 10, |s| { len3(s, 4) });
-harness!(preconditions_len_3_a5, unwind = 10, |s| { len3(s, 5) });
-harness!(preconditions_len_3_a6, unwind = 10, |s| { len3(s, 6) });
-harness!(preconditions_len_4_paren, unwind = 10, |s| { len4(s, 2, 2); len4(s, 2, 0); len4(s, 0, 4); len4(s, 2, 6); });
+harness!(preconditions_len_0, unwind = 10, |s| { check_seq::<S, 0>(s, None) });
+harness!(preconditions_len_1, unwind = 10, |s| { check_seq::<S, 1>(s, None) });
+harness!(preconditions_len_2, unwind = 10, |s| { check_seq::<S, 2>(s, None) });
+// length 3: the first token kind is fixed per harness so the work spreads over the cores
+harness!(preconditions_len_3_a0, unwind = 10, |s| { check_seq::<S, 3>(s, Some(0)) });
+harness!(preconditions_len_3_a1, unwind = 10, |s| { check_seq::<S, 3>(s, Some(1)) });
+harness!(preconditions_len_3_a2, unwind = 10, |s| { check_seq::<S, 3>(s, Some(2)) });
+harness!(preconditions_len_3_a3, unwind = 10, |s| { check_seq::<S, 3>(s, Some(3)) });
+harness!(preconditions_len_3_a4, unwind = 10, |s| { check_seq::<S, 3>(s, Some(4)) });
+harness!(preconditions_len_3_a5, unwind = 10, |s| { check_seq::<S, 3>(s, Some(5)) });
+harness!(preconditions_len_3_a6, unwind = 10, |s| { check_seq::<S, 3>(s, Some(6)) });
 
-registry!("c07", preconditions_len_0_1_2, preconditions_len_3_a0, preconditions_len_3_a1, preconditions_len_3_a2, preconditions_len_3_a3,
-    preconditions_len_3_a4, preconditions_len_3_a5, preconditions_len_3_a6, preconditions_len_4_paren);
+registry!("c07", preconditions_len_0, preconditions_len_1, preconditions_len_2, preconditions_len_3_a0, preconditions_len_3_a1, preconditions_len_3_a2,
+    preconditions_len_3_a3, preconditions_len_3_a4, preconditions_len_3_a5, preconditions_len_3_a6);
